@@ -2,9 +2,47 @@ import os, sys
 sys.path.insert(0, os.path.dirname(os.path.abspath(__file__)))
 import aro_props
 
+
+def extra(ctx):
+    """End-to-end stage (notes/Pipeline.md): harness/cmd/pipeline wires the real AdjRIBIn -> LocRIB -> AdjRIBOut ->
+    UpdateSender objects as fsm_address_family.go does and drives multi-session histories; its spec oracle states
+    'peer view after drain = export of the selection over the union of the current announcements' directly;
+    ocaml/pipeline/pipeline_run.ml replays the same histories through the extracted composed model (Model/Pipeline.v)."""
+    vlib = ctx["vlib"]
+    lines, stats = [], {}
+    ok, exe, log = vlib.build_harness("pipeline")
+    if not ok:
+        return {"lines": ["HARNESS-ERROR pipeline harness does not build: " + log.strip()[-600:]], "stats": stats}
+    n = {"quick": 500, "thorough": 20000}[ctx["tier"]]
+    outdir = os.path.join(ctx["outdir"], "pipeline")
+    rc, out, trace, hstats = vlib.run_harness_once(exe, {"id": "Pipeline"}, ctx["tier"], ctx["seed"], "check", n, outdir, timeout=1500)
+    hl = out.split("\n")
+    lines += [l for l in hl if l.startswith("SPEC-VIOLATION") or l.startswith("HARNESS-ERROR")]
+    if rc != 0 and not lines:
+        lines.append("HARNESS-ERROR pipeline harness exit=%d %s" % (rc, out.strip()[-400:]))
+    ncases, distinct, samples = vlib.trace_stats(trace)
+    stats.update({"evaluations": ncases, "pipeline_cases": ncases, "pipeline_distinct_nontrivial": distinct,
+                  "pipeline_distribution": hstats.get("distribution", {}), "pipeline_samples": [s[:600] for s in samples[:1]]})
+    mprop = {"modelrun": {"name": "pipeline", "extracted": ["pipeline_model"], "driver": "ocaml/pipeline/pipeline_run.ml"}}
+    mok, mexe, mlog = vlib.build_modelrun(mprop)
+    if not mok:
+        lines.append("MODEL-ERROR pipeline modelrun does not build: " + (mlog or "")[-400:])
+        return {"lines": lines, "stats": stats}
+    rc, mout = vlib.run_modelrun(mexe, trace)
+    for l in mout.split("\n"):
+        if l.startswith("CORR-MISMATCH") or l.startswith("MODEL-ERROR"):
+            lines.append(l)
+        if l.startswith("STATS "):
+            stats["pipeline_model_stats"] = l
+    if rc != 0 and not any(l.startswith("CORR-MISMATCH") for l in lines):
+        lines.append("MODEL-ERROR pipeline modelrun exit=%d %s" % (rc, mout.strip()[-300:]))
+    return {"lines": lines, "stats": stats}
+
+
 PROP = {
     "id": "C08",
-    "coq_targets": ["Properties/C08.vo", "Extract/AroExtract.vo"],
+    "coq_targets": ["Properties/C08.vo", "Extract/AroExtract.vo", "Extract/PipelineExtract.vo"],
+    "extra": extra,
     "properties_file": "Properties/C08.v",
     "theorems": ["C08_ribout_is_export_view_partial", "C08_guard_transparent_ibgp", "C08_guard_transparent_rs_client",
                  "C08_guard_policy_language", "C08_ribout_is_export_view_refuted_rewriting",
